@@ -40,7 +40,8 @@ CHECKS = {
         "thorough": [
             {"pkg": "lib", "entries": ["VerifC17Flat"], "params": {"N": 3, "M": 3}},
             {"pkg": "lib", "entries": ["VerifC17Docs"], "params": {"KN": 2, "INNER": 2}},
-            {"pkg": "lib", "entries": ["VerifC17Deep"], "params": {"DEPTH": 9, "N": 3, "CHAINKINDS": 2}},
+            {"pkg": "lib", "entries": ["VerifC17Deep"], "params": {"DEPTH": 9, "N": 3, "CHAINKINDS": 1}},
+            {"pkg": "lib", "entries": ["VerifC17Deep"], "params": {"DEPTH": 5, "N": 2, "CHAINKINDS": 2}},
         ],
         "covers": ["c17.flat.none", "c17.flat.set", "c17.flat.multiset", "c17.flat.merge", "c17.flat.precision", "c17.obj.none", "c17.keyed.setkeys", "c17.void.none"],
         "outside": "arrays longer than N; keys other than a,b,c,id,v; FNV collisions; the top-level binary with -v2=false (C14)",
@@ -256,7 +257,8 @@ CHECKS = {
             {"pkg": "v2", "entries": ["VerifC01Keyed"], "params": {"N": 2, "M": 1}},
             {"pkg": "v2", "entries": ["VerifC01Keyed"], "params": {"N": 1, "M": 2}},
             {"pkg": "v2", "entries": ["VerifC01Nest"], "params": {"N": 2, "OPTS": 0x77, "WRAPS": 4}},
-            {"pkg": "v2", "entries": ["VerifC01Deep"], "params": {"DEPTH": 9, "CHAINKINDS": 2}},
+            {"pkg": "v2", "entries": ["VerifC01Deep"], "params": {"DEPTH": 9, "CHAINKINDS": 1}},
+            {"pkg": "v2", "entries": ["VerifC01Deep"], "params": {"DEPTH": 5, "CHAINKINDS": 2}},
         ],
         "covers": ["c01.flat.none", "c01.flat.set", "c01.flat.multiset", "c01.flat.merge", "c01.flat.set+merge", "c01.flat.multiset+merge",
                    "c01.obj.none", "c01.obj.merge", "c01.keyed.setkeys", "c01.void.none", "c01.mixed.set", "c01.nest.none", "c01.nest.multiset", "c01.deep.none"],
